@@ -2096,14 +2096,18 @@ func (s *swamp) CreateTreasure(key string) treasure.Treasure {
 	s.createMu.Lock()
 	defer s.createMu.Unlock()
 
+	// if another goroutine already created an in-flight treasure for this key, reuse it.
+	// The tracker must be consulted BEFORE the beacon: SaveFunction publishes a new treasure
+	// with beaconKey.Add first and creatingTreasures.Delete second (without createMu), so a
+	// caller that looks at the beacon first and at the tracker second can miss both and
+	// would build a second, independent treasure for the same key (lost updates).
+	if v, ok := s.creatingTreasures.Load(key); ok {
+		return v.(treasure.Treasure)
+	}
+
 	// return with the original treasure if it is existing in the beacon
 	if treasureObj := s.beaconKey.Get(key); treasureObj != nil {
 		return treasureObj
-	}
-
-	// if another goroutine already created an in-flight treasure for this key, reuse it
-	if v, ok := s.creatingTreasures.Load(key); ok {
-		return v.(treasure.Treasure)
 	}
 
 	t := treasure.New(s.SaveFunction)
